@@ -1,9 +1,90 @@
 import Drive.Json
-/-! Line-protocol handlers: Studio (stub until the model lands). -/
+import Drive.Equalizer
+import PlaybackModel.Studio
+/-! Line-protocol handlers for the Studio model (C19).
+
+Request `{"m":"c19.play", "cats":[[id,cat]…], "stored":[[id,cat,incomplete|null,selected]…], "failing":[[cat,msg]…],
+          "beh":[[cat,id,beh]…], "keep":b, "rate":n, "timeoutMs":n, "dedicated":b, "skipIncomplete":b, "limit":n|null,
+          "categories":[cat…], "ids":[id…], "order":[cat…]|null}`
+Answer  `{"result":[[cat, {"err":msg} | {"ok":[comparison…]}]…], "interleaved":[[cat,[comparison…]]…]|null, "clean":b}` -/
 open Lean
 namespace Drive.Studio
-open Drive
+open Drive PlaybackModel.Equalizer PlaybackModel.Studio
 
-def handlers : List (String × Handler) := []
+def pairNat (j : Json) : Except String (Nat × Nat) := do
+  match ← asArr j with
+  | [a, b] => .ok ((← asNat a), (← asNat b))
+  | _ => .error "bad pair"
+
+def toRec (j : Json) : Except String Rec := do
+  match ← asArr j with
+  | [i, c, inc, sel] =>
+    let incomplete ← match inc with
+      | .null => pure none
+      | v => do pure (some (← asBool v))
+    .ok ⟨← asNat i, ← asNat c, incomplete, ← asBool sel⟩
+  | _ => .error "bad stored recording"
+
+def toFailing (j : Json) : Except String (Nat × String) := do
+  match ← asArr j with
+  | [c, m] => .ok ((← asNat c), (← asStr m))
+  | _ => .error "bad failing entry"
+
+def toBehEntry (j : Json) : Except String ((Nat × Nat) × Beh) := do
+  match ← asArr j with
+  | [c, i, b] => .ok (((← asNat c), (← asNat i)), (← Drive.Equalizer.toBeh b))
+  | _ => .error "bad beh entry"
+
+def lookupD {α β : Type} [BEq α] (l : List (α × β)) (k : α) (d : β) : β :=
+  match l.lookup k with
+  | some v => v
+  | none => d
+
+def mkStudio (j : Json) : Except String Studio := do
+  let cats ← mapM' pairNat (← arrField j "cats")
+  let stored ← mapM' toRec (← arrField j "stored")
+  let failing ← mapM' toFailing (← arrField j "failing")
+  let beh ← mapM' toBehEntry (← arrField j "beh")
+  let limit ← match optField j "limit" with
+    | some v => do pure (some (← asNat v))
+    | none => pure none
+  .ok { catOf := fun i => lookupD cats i 0,
+        stored := stored,
+        tuner := fun k => match failing.lookup k with
+          | some m => .error m
+          | none => .ok (fun i => lookupD beh (k, i) (.verdict .different "foreign tuning")),
+        cfg := ⟨← boolField j "keep", ← natField j "rate", ← natField j "timeoutMs"⟩,
+        dedicated := ← boolField j "dedicated",
+        props := ⟨← boolField j "skipIncomplete", limit⟩,
+        categories := ← mapM' asNat (← arrField j "categories"),
+        recordingIds := ← mapM' asNat (← arrField j "ids") }
+
+def jResult : Except String (List Comparison) → Json
+  | .error e => jObj [("err", Json.str e)]
+  | .ok cs => jObj [("ok", jArr (cs.map Drive.Equalizer.jComparison))]
+
+def playH : Handler := fun j => do
+  let s ← mkStudio j
+  let res := play s
+  let inter ← match optField j "order" with
+    | none => pure (Json.null, Json.null)
+    | some o => do
+      let order ← mapM' asNat (← asArr o)
+      let gs := groups s
+      let todo : Cat → List Task := fun k =>
+        match gs.lookup k with
+        | none => []
+        | some g => match s.tuner k with
+          | .error _ => []
+          | .ok tun => tasksOf (idsFor s k g) tun
+      match consume s.cfg (startState todo) order with
+      | none => pure (Json.null, Json.null)
+      | some st =>
+        pure (jArr (gs.map (fun g => jArr [jNat g.1, jArr ((st.out g.1).map Drive.Equalizer.jComparison)])),
+              Json.bool st.sh.clean)
+  .ok (jObj [("result", jArr (res.map (fun p => jArr [jNat p.1, jResult p.2]))),
+             ("interleaved", inter.1), ("clean", inter.2)])
+
+def handlers : List (String × Handler) := [("c19.play", playH)]
 
 end Drive.Studio
